@@ -32,6 +32,48 @@
 
 using namespace iora::network::dns;
 
+// ---- directed probe "cleanup" (X18-O5): a pause plan for the transport's cleanup thread.  The executable's own
+// pthread_cond_clockwait / pthread_mutex_lock win over libc's (symbol interposition, as in vf/sched.cpp) and pass straight
+// through unless the probe is armed.  The cleanup thread is the only thread of the process that waits on a condition
+// variable with a deadline; after that wait timed out, the first mutex it locks is queriesMutex_ (phase 1 of
+// cleanupExpiredQueries) and the next lock of the SAME mutex is phase 3: there it is held until the driver releases it.
+#include <dlfcn.h>
+static std::atomic<int> g_probe{0}, g_paused{0}, g_release{0};
+static thread_local int t_cleanup = 0, t_woke = 0;
+static thread_local pthread_mutex_t *t_first = nullptr;
+typedef int (*lock_fn)(pthread_mutex_t *);
+typedef int (*clockwait_fn)(pthread_cond_t *, pthread_mutex_t *, clockid_t, const struct timespec *);
+static lock_fn r_lock = nullptr;
+static clockwait_fn r_clockwait = nullptr;
+extern "C" int pthread_cond_clockwait(pthread_cond_t *c, pthread_mutex_t *m, clockid_t clk, const struct timespec *ts)
+{
+  if (!r_clockwait) r_clockwait = (clockwait_fn)dlsym(RTLD_NEXT, "pthread_cond_clockwait");
+  if (g_probe.load(std::memory_order_relaxed)) t_cleanup = 1;
+  int rc = r_clockwait(c, m, clk, ts);
+  if (t_cleanup && rc == ETIMEDOUT)
+  {
+    t_woke = 1;
+    t_first = nullptr;
+  }
+  return rc;
+}
+extern "C" int pthread_mutex_lock(pthread_mutex_t *m)
+{
+  if (!r_lock) r_lock = (lock_fn)dlsym(RTLD_NEXT, "pthread_mutex_lock");
+  if (t_cleanup && t_woke && g_probe.load(std::memory_order_relaxed))
+  {
+    if (!t_first)
+      t_first = m;
+    else if (m == t_first)
+    {
+      t_woke = 0;
+      g_paused.store(1);
+      while (!g_release.load()) usleep(200);
+    }
+  }
+  return r_lock(m);
+}
+
 static double nowS()
 {
   struct timespec ts;
@@ -399,8 +441,8 @@ struct Rig
       }
     }
     bool early = kind == "timeout" && (nowS() - t0) * 1000.0 < (double)tmoMs - 1.0; // t0 precedes the arming of the timer
-    if (q != 0) tr->add(vf::Ev("Done").i("q", q).str("kind", kind).i("tag", tg).i("early", early ? 1 : 0));
-    sh->ndone[q].fetch_add(1);
+    int nth = sh->ndone[q].fetch_add(1) + 1;
+    if (q != 0) tr->add(vf::Ev("Done").i("q", q).str("kind", kind).i("tag", tg).i("early", early ? 1 : 0).i("nth", nth));
   }
 
   // tmo=S: keep the armings of timeout timers apart, so that "q1 timed out, q2 still pending" is a state
@@ -512,8 +554,70 @@ struct Rig
   }
 };
 
+// probe=cleanup: q2's completion callback keeps the timer thread busy (a slow user callback), so q1's timeout timer is late
+// when the cleanup thread wakes 10 s after start(): phase 1 collects q1 (expired, retries exhausted), the cleanup thread is
+// held before phase 3, the server answers q1 (the I/O thread completes it), the cleanup thread goes on: phase 4.
+static std::string runCleanupProbe()
+{
+  Rig r;
+  r.mode = "U";
+  r.tmoMs = 1000;
+  r.tr->add(vf::Ev("Begin").str("mode", "U").i("retries", 0).str("tmo", "P").i("nsrv", 1).str("api", "async").i("probe", 1));
+  if (!r.openServers()) return "{\"e\":\"DriverError\",\"what\":\"bind\"}\n";
+  DnsConfig cfg(std::vector<std::string>{"127.0.0.1"}, r.srv[0].port);
+  cfg.timeout = std::chrono::milliseconds(r.tmoMs);
+  cfg.retryCount = 0;
+  cfg.transportMode = DnsTransportMode::UDP;
+  r.t = std::make_shared<DnsTransport>(cfg);
+  g_probe.store(1);
+  double T0 = nowS();
+  r.t->start();
+  auto gateB = std::make_shared<std::atomic<int>>(0);
+  auto sleepUntil = [&](double t)
+  {
+    while (nowS() < t) r.pump(-1, false, 5, false);
+  };
+  sleepUntil(T0 + 8.3);
+  {
+    double t0 = nowS();
+    r.qi[2].t0 = t0;
+    r.tr->add(vf::Ev("Query").i("q", 2));
+    Rig *self = &r;
+    r.t->queryAsync(DnsQuestion(kNames[2], DnsType::A, DnsClass::IN),
+                    [self, t0, gateB](const DnsResult &res, const std::exception_ptr &e)
+                    {
+                      self->complete(2, res, e, t0);
+                      while (!gateB->load()) usleep(500); // the slow callback
+                    });
+    r.tr->add(vf::Ev("QueryRet").i("q", 2));
+    r.expectQuery(2, false);
+  }
+  sleepUntil(T0 + 8.6);
+  r.issue(1);
+  r.expectQuery(1, false);
+  double lim = T0 + 14.0;
+  while (!g_paused.load() && nowS() < lim) r.pump(-1, false, 5, false);
+  bool reached = g_paused.load() != 0 && r.sh->ndone[1].load() == 0;
+  r.tr->add(vf::Ev("Probe").b("reached", reached));
+  if (reached)
+  {
+    r.respond("ans", 'u', 1);
+    r.tr->add(vf::Ev("Wait").i("q", 1).b("got", r.waitDone(1, 3.0)).i("lim", 2));
+  }
+  g_release.store(1);
+  sleepUntil(nowS() + 0.4);
+  gateB->store(1);
+  sleepUntil(nowS() + 0.3);
+  g_probe.store(0);
+  r.stop();
+  r.t.reset();
+  r.tr->add(vf::Ev("End"));
+  return r.tr->text();
+}
+
 static std::string runOne(const std::string &line)
 {
+  if (line.find("probe=cleanup") != std::string::npos) return runCleanupProbe();
   auto parts = vf::split(line, '|');
   Rig r;
   for (auto &kv : vf::words(parts[0]))
@@ -526,7 +630,7 @@ static std::string runOne(const std::string &line)
     if (k == "nsrv") r.nsrv = atoi(v.c_str());
     if (k == "api") r.api = v;
   }
-  r.tr->add(vf::Ev("Begin").str("mode", r.mode).i("retries", r.retries).str("tmo", r.tmoMs == kShortMs ? "S" : "L").i("nsrv", r.nsrv).str("api", r.api));
+  r.tr->add(vf::Ev("Begin").str("mode", r.mode).i("retries", r.retries).str("tmo", r.tmoMs == kShortMs ? "S" : "L").i("nsrv", r.nsrv).str("api", r.api).i("probe", 0));
   if (!r.openServers())
   {
     r.tr->add(vf::Ev("DriverError").str("what", "bind"));
